@@ -6,6 +6,11 @@ TARGETS = ["paramiko.ed25519key.Ed25519Key.verify_ssh_sig", "paramiko.rsakey.RSA
            "paramiko.ecdsakey.ECDSAKey.verify_ssh_sig", "paramiko.ecdsakey.ECDSAKey._sigdecode"]
 EXTRA_AXIOMS = specs.MPINT_AXIOMS
 REPLAY = {"*": "c35.replay_verify", "RSAKey": "c35.rsa_odd_modulus"}
+BOUNDED = [("c39.validate_spec", "util.inflate_long (under Message.get_mpint, which ECDSAKey._sigdecode decodes r and s with) against "
+            "the two's-complement reading of the bytes: canonical encodings at every byte and sign boundary up to 4096 bits and "
+            "non-canonical byte strings of 0..69 bytes with every kind of leading byte (its contract is otherwise assumed)"),
+           ("c35.ecdsa_unpadded_integers", "genuine ECDSA signatures re-encoded with the sign padding of r or s removed (a negative "
+            "integer on the wire) are refused, for the three curves, 40 signatures each")]
 
 
 def setup(E):
